@@ -115,7 +115,7 @@ def config_dict(case, nodes=None, rs=None):
     rs = case["rs"] if rs is None else rs
     cfg = {"extensions": ["semantiva-examples"], "pipeline": {"nodes": [node_yaml(n) for n in nodes]}}
     if case["trace"] == "yaml":
-        cfg["trace"] = {"driver": "jsonl", "output_path": "tr"}
+        cfg["trace"] = {"driver": "jsonl", "output_path": case.get("trace_path", "tr")}
     if rs is not None:
         block = {"combine": rs["combine"], "blocks": [{"mode": b["mode"], "context": {k: pg.v_impl(v) for k, v in b["context"]}} for b in rs["blocks"]]}
         if rs.get("max_runs") is not None:
@@ -165,7 +165,7 @@ def argv_of(case):
     elif a.get("set_bad") == "malformed":
         out += ["--set", "pipeline.nodes.0"]
     if case["trace"] == "cli":
-        out += ["--trace.driver", "jsonl", "--trace.output", "tr"]
+        out += ["--trace.driver", "jsonl", "--trace.output", case.get("trace_path", "tr")]
     if a.get("bad_driver"):
         out += ["--trace.driver", "sqlite"]
     if a.get("attempt") is not None:
@@ -195,19 +195,22 @@ def run_case(case):
         for tf in tfiles:
             if not tf.endswith(".ser.jsonl"):
                 continue
-            idx, seq, n, errs = None, None, 0, 0
+            cur = None      # (a single-file destination holds several runs: one entry per pipeline_start)
             for line in open(os.path.join(d, tf)):
                 try:
                     r = json.loads(line)
                 except ValueError:
                     continue
                 if r.get("record_type") == "pipeline_start":
-                    idx, seq = r.get("run_space_index"), r.get("seq")
+                    cur = {"index": r.get("run_space_index"), "seq": r.get("seq"), "nodes": 0, "errors": 0}
+                    runs.append(cur)
                 elif r.get("record_type") == "ser":
-                    n += 1
+                    if cur is None:
+                        cur = {"index": None, "seq": None, "nodes": 0, "errors": 0}
+                        runs.append(cur)
+                    cur["nodes"] += 1
                     if r.get("status") == "error":
-                        errs += 1
-            runs.append({"index": idx, "seq": seq, "nodes": n, "errors": errs})
+                        cur["errors"] += 1
         runs.sort(key=lambda r: (r["index"] if r["index"] is not None else -1, r["seq"] or 0))
         text = out + "\n" + err
         stages = []
@@ -326,6 +329,8 @@ def mk_case(rng, cls, flags=None, trace=None):
     """cls: 'valid', 'multi', 'multi-fail', 'runtime-fail', or a key of REJECT"""
     case = {"cls": cls, "file": "ok", "rs": None, "trace": trace, "args": default_args(), "reject": None, "fail_run": None, "n_runs": 1}
     a = case["args"]
+    if trace is not None and rng.random() < 0.35:
+        case["trace_path"] = "tr/all.ser.jsonl"      # a single-file destination (suffix) instead of a directory
     multi = cls in ("multi", "multi-fail") or cls.startswith("run-space-") or (cls == "missing-context-key" and rng.random() < 0.5)
     nodes, need = base_pipeline(rng, multi=multi, fail_key=cls in ("multi-fail",))
     if cls == "runtime-fail":
